@@ -402,7 +402,30 @@ def r4_literal_bases(ctx: Ctx) -> None:
     hexd = acc.get("x") or ""
     ctx.check(set(hexd) == set("0123456789abcdefABCDEF"), "lex_number[x]", "hex digits in both letter cases")
     ctx.check(set(acc.get("b") or "") == {"0", "1"}, "lex_number[b]", "binary digits")
-    ctx.count("base_facts", 6)
+    # the prefix test lists exactly the prefixes that have a digit set, decimal runs accept all ten digits, and every place a number
+    # may start (statement level, expression level) accepts all ten digits
+    pref = None
+    for n in walk_no_nested(ln.node):
+        if isinstance(n, ast.Compare) and len(n.ops) == 1 and isinstance(n.ops[0], ast.In) and unparse(n.left) == "base_prefix" and isinstance(n.comparators[0], (ast.Tuple, ast.List, ast.Set)):
+            pref = {const_str(e) for e in n.comparators[0].elts}
+        if isinstance(n, ast.Compare) and len(n.ops) == 1 and isinstance(n.ops[0], ast.In) and unparse(n.left) == "base_prefix" and unparse(n.comparators[0]) == "acceptable_values":
+            pref = set(acc)
+    if pref is None:
+        raise AnalysisError("lex_number: prefix test not found")
+    ctx.check(pref == set(acc) and {"x", "b"} <= pref, "lex_number:prefixes", f"every prefix with a digit set is recognised (0x and 0b at least); test lists {sorted(pref)}, digit sets exist for {sorted(acc)}")
+    dec = [const_str(c.args[0]) for c in calls_in(ln.node) if call_name(c) == "s.accept_run" and c.args and const_str(c.args[0]) is not None]
+    ctx.check(any(set(d) == set("0123456789") for d in dec if d), "lex_number:decimal-digits", f"a decimal literal is a run over all ten digits; runs found {dec}")
+    starts = []
+    for fname in ("lex_initial", "lex_expression"):
+        f_ = ctx.repo.func(SSTATES, fname)
+        for n in walk_no_nested(f_.node):
+            if isinstance(n, ast.If) and any(call_name(c) == "lex_number" for b in n.body for c in calls_in(b)):
+                t = n.test
+                lit = const_str(t.args[0]) if isinstance(t, ast.Call) and call_name(t) == "s.accept" and t.args else None
+                starts.append((fname, lit))
+    ctx.check(len(starts) >= 2 and all(l is not None and set(l) == set("0123456789") for _f, l in starts), "number-start-digits",
+              f"a number may start with any decimal digit in both lexing contexts; found {starts}")
+    ctx.count("base_facts", 9)
 
 
 def r5_single_evaluator(ctx: Ctx) -> None:
@@ -481,6 +504,14 @@ def r6_identifier_values(ctx: Ctx) -> None:
     symbol_values_stored_verbatim(ctx)
 
 
+def r7_parenthesised_operand_expressions(ctx: Ctx) -> None:
+    """`the same expression text has the same value in every context`: an operand that starts with a parenthesised sub-expression and
+    goes on with an operator is an expression, not an indirect operand (shared with C01.R5)"""
+    from .c01 import operator_after_paren
+
+    operator_after_paren(ctx)
+
+
 def rb_binding_agreement(ctx: Ctx) -> None:
     from ..ownership import binding_agreement
 
@@ -501,4 +532,4 @@ def ru_names_bound(ctx: Ctx) -> None:
     names_rule(ctx)
 
 
-RULES = [r1_precedence_order, r2_associativity, r3_evaluation_dispatch, r4_literal_bases, r5_single_evaluator, r6_identifier_values, rb_binding_agreement, rm_no_process_lifetime_results, ru_names_bound]
+RULES = [r1_precedence_order, r2_associativity, r3_evaluation_dispatch, r4_literal_bases, r5_single_evaluator, r6_identifier_values, r7_parenthesised_operand_expressions, rb_binding_agreement, rm_no_process_lifetime_results, ru_names_bound]
